@@ -83,11 +83,11 @@ def emitted_subset_of_main(ctx) -> bool:
 
 
 def rule_sibling_interpreters(ctx, rep, rid: str) -> None:
-    rep.rule(rid, "every matcher loop (main, lookahead, lookbehind) has a branch for every opcode the regex compiler can emit, and none has a catch-all that skips instructions it does not interpret", floor=3)
+    rep.rule(rid, "every matcher loop (the main one and any sub-matcher for lookahead/lookbehind bodies) has a branch for every opcode the regex compiler can emit, and none has a catch-all that skips instructions it does not interpret", floor=1)
     em = set(emitted(ctx))
     loops = handled_by_loop(ctx)
-    if len(loops) < 3:
-        raise AnalysisError(f"only {len(loops)} matcher loops found")
+    if len(loops) < 1:
+        raise AnalysisError("no matcher loop found")
     for f, ops, catch_all, line in loops:
         loc = f"{f.module.rel}:{line}"
         missing = sorted(em - ops)
@@ -527,11 +527,20 @@ def rule_snapshot_ownership(ctx, rep, rid: str) -> None:
     snapshot does not share mutable slots with the live state: either snapshots copy every slot, or every write
     installs a fresh slot.  Decided per matcher loop, with the write mode taken over ALL loops because the
     capture lists flow between them (arguments and return values)."""
-    rep.rule(rid, "choice-point snapshots never share mutable state with the live match state: capture snapshots copy each slot unless every capture write in every matcher loop replaces the slot; no snapshot is a bare alias", floor=3)
+    rep.rule(rid, "choice-point snapshots never share mutable state with the live match state: capture snapshots copy each slot unless every capture write in every matcher loop replaces the slot; no snapshot is a bare alias", floor=1)
     loops = ctx.facts.matcher_loops()
     inplace: List[Tuple[Func, ast.AST]] = []
     per_fn = []
-    for f, _loop in loops:
+    # helpers that start nested matcher runs (e.g. one run per candidate start of a lookbehind) hand over
+    # capture lists too
+    loop_fns = {id(g) for g, _ in loops}
+    helpers = []
+    for g in ctx.tree.funcs:
+        if id(g) in loop_fns or g.cls is None or not any(g.cls is lf.cls for lf, _ in loops):
+            continue
+        if any(cs.kind == "resolved" and any(id(t) in loop_fns for t in cs.targets) and any("capture" in norm(a) for a in cs.call.args) for cs in ctx.cg.sites_of.get(id(g), [])):
+            helpers.append((g, None))
+    for f, _loop in list(loops) + helpers:
         # nested state: variables whose elements are lists ([[..] for ..] initialisers or copies of a parameter holding them)
         nested: Set[str] = set()
         flat: Set[str] = set()
@@ -560,9 +569,23 @@ def rule_snapshot_ownership(ctx, rep, rid: str) -> None:
                     if d is not None:
                         nested.add(n.targets[0].id)
                         changed = True
+        if _loop is None:
+            # a helper owns the lists it creates itself; only what it RECEIVES is the caller's live state
+            nested = {x for x in nested if x in f.params()}
+            flat = set()
         state = nested | flat
         snaps = []
+        loop_ids = {id(g) for g, _ in loops}
         for n in f.own_nodes():
+            # a nested run of a matcher loop (the body of a lookaround) works on the list it is given: what it
+            # is given must not share slots with the caller's live state
+            if isinstance(n, ast.Call):
+                cs = ctx.cg.site_of_call.get(id(n))
+                if cs is not None and cs.kind == "resolved" and any(id(t) in loop_ids for t in cs.targets):
+                    for a in list(n.args) + [k.value for k in n.keywords]:
+                        d = _copy_depth(a, state)
+                        if d is not None and d[0] in nested:
+                            snaps.append((n, d[0], d[1], "argument of a nested matcher run"))
             # stack.append((pc, sp, <captures>, <registers>))
             if isinstance(n, ast.Call) and isinstance(n.func, ast.Attribute) and n.func.attr == "append" and n.args and isinstance(n.args[0], ast.Tuple):
                 for el in n.args[0].elts:
